@@ -9,16 +9,17 @@
 (***************************************************************************)
 EXTENDS Builtins
 
-CONSTANT FullB
+CONSTANTS FullA, FullB     \* TRUE: all W-bit values; FALSE: a boundary set
 VARIABLES a, b, ph, za, zb     \* za, zb: the BigZ forms of a, b (state variables: evaluated once)
 
 W  == SIntW
 Lo == -Pow2[W - 1]
 Hi == Pow2[W - 1] - 1
-RangeA == Lo..Hi
+BndA == {0, 1, -1, 2, -3, 7, 10, -10, 48, 57, 65, 97, -31, Hi, Lo, Lo + 1, 64, -64, 100, -100, 127 - 32}
+RangeA == IF FullA THEN Lo..Hi ELSE {x \in BndA : x >= Lo /\ x <= Hi}
 BndB == {0, 1, -1, 2, -2, 3, -3, 7, -7, 10, Hi, Hi - 1, Lo, Lo + 1, 15, 16, 17, -15, -16, -17, 31, 32, 33,
          63, 64, 65, -63, -64, -65, 100, -100}
-RangeB == IF FullB THEN RangeA ELSE {x \in BndB : x >= Lo /\ x <= Hi}
+RangeB == IF FullB THEN Lo..Hi ELSE {x \in BndB : x >= Lo /\ x <= Hi}
 
 NWrap(n) == ((n + Pow2[W - 1]) % Pow2[W]) - Pow2[W - 1]
 NU(n)    == n % Pow2[W]
@@ -174,12 +175,13 @@ Words ==
               /\ (ToInt(dd[1]) * Pow2[W] + ToInt(dd[2])) * NU(b) + ToInt(dd[3]) = NU(a) * Pow2[W] + NU(b)
               /\ ToInt(dd[3]) < NU(b) /\ ToInt(dd[1]) = 0)
 
+NPow(x, e) == IF e = 0 THEN 1 ELSE x ^ e            \* 0^0 = 1 (TLC leaves it undefined)
 Powers ==
   \A e \in {0, 1, 2, 3, 4} :
     LET E == FromInt(e) IN
-    /\ (NAbs(a) <= 30 => I2("BIntSIPower", A, E) = a ^ e /\ I2("BIntBIPower", A, E) = a ^ e)
+    /\ (NAbs(a) <= 30 => I2("BIntSIPower", A, E) = NPow(a, e) /\ I2("BIntBIPower", A, E) = NPow(a, e))
     /\ (NAbs(a) <= 12 /\ b # 0 /\ NAbs(b) <= 20 =>
-          ToInt(D3("BIntPowerMod", A, E, Bz)) = NRem(a ^ e, b))
+          ToInt(D3("BIntPowerMod", A, E, Bz)) = NRem(NPow(a, e), b))
 
 Typing ==
   /\ \A o \in {"SIntPlus", "SIntMinus", "SIntTimes", "SIntAnd", "SIntOr", "SIntXOr", "SIntGcd",
